@@ -2,7 +2,7 @@
    Property theorems only; the model is Bac.Net (no proofs), the proofs live in Bac.NetFacts.
    Local theorems hold for EVERY node state, adapter, and arriving frame of the model.  `Fwd` marks the copies made
    by the forwarding section of process_npdu (netservice.py:607-676), `Tx` every other frame a node emits. *)
-From Bac Require Import Base Net NetFacts NetTerm NetTerm2 NetReply NetOnce NetRoute NetArrive NetLocal NetBcast NetTree NetFlood NetRound NetCert NetLbc NetAnn NetPark.
+From Bac Require Import Base Net NetFacts NetTerm NetTerm2 NetReply NetOnce NetRoute NetArrive NetLocal NetBcast NetTree NetFlood NetRound NetCert NetLbc NetAnn NetPark NetNum NetNumFacts NetNumInv.
 Open Scope N_scope.
 
 (* each router hop lowers the hop count by exactly one, and keeps payload and message type *)
@@ -934,4 +934,99 @@ Example C06_tree_global_broadcast_example :
   let w := run 100 (submit tree4 2 AGB [16; 99; 3]) in
   queue w = [] /\ ups_of w = [OUp 3 (ARS 1 [1]) AGB [16; 99; 3]; OUp 4 (ARS 1 [1]) AGB [16; 99; 3];
                            OUp 5 (ARS 1 [1]) AGB [16; 99; 3]; OUp 6 (ARS 1 [1]) AGB [16; 99; 3]].
+Proof. vm_compute. split; reflexivity. Qed.
+
+(* ===== network-number learning (What-Is-Network-Number / Network-Number-Is; model NetNum.v) =====
+   Seeded C06-w6-3 left a stale key in NetworkServiceAccessPoint.adapters when a station learned its number, so the
+   station had "two adapters" and every global broadcast it originated went out (and was delivered) twice. *)
+
+(* whatever a node sees - frames of any kind, announcements and renumberings included, application sends, cache
+   learning, its own questions / announcements, the answer timer - it keeps exactly the ports it was bound with:
+   same number of adapters, same link addresses, same application *)
+Theorem C06_number_learning_keeps_ports : forall es x x' l,
+  run_xscript x es = (x', l) -> same_ports (x_node x) (x_node x').
+Proof. exact run_xscript_ports. Qed.
+Print Assumptions C06_number_learning_keeps_ports.
+
+(* a global broadcast handed down by the application leaves every port exactly once (any modelled node) *)
+Theorem C06_global_broadcast_once_per_port : forall n data,
+  modelled_config n = true ->
+  indication n AGB data =
+    (n, map (fun j => Tx j LBcast (mkNpdu (Some DGlobal) None 255 None data)) (seq 0 (length (adapters n)))).
+Proof. exact global_broadcast_once_per_port. Qed.
+Print Assumptions C06_global_broadcast_once_per_port.
+
+(* a station (one adapter: told nothing, its address, or a number it only learned) that hears Network-Number-Is `net`
+   transmits nothing and becomes exactly the station bound with `net` and the same address - same application, same
+   parked packets, cache re-filed under `net` - so every theorem about stations told network+address applies from then
+   on; its next global broadcast leaves its port exactly once; and when its cache was filed under the adapter's old
+   number (C06_number_learned_cache_filed: re-filing keeps that invariant) every path it knew is still known *)
+Theorem C06_number_learned_station : forall o m app c pd conf task src net flag x' acts,
+  xprocess (mkX (mkNode [mkAd o m] app c pd) conf task) 0 src LBcast (num_is net flag) = (x', acts) ->
+  net < 65536 -> learnable o conf net ->
+  acts = [] /\
+  x_node x' = mkNode [mkAd (Some net) m] app (cache_rekey c o (Some net)) pd /\
+  x_conf x' = (match o with None => 0 | Some _ => flag end) /\ x_task x' = 0 /\
+  (forall data, indication (x_node x') AGB data
+                = (x_node x', [Tx 0 LBcast (mkNpdu (Some DGlobal) None 255 None data)])) /\
+  (keys_on o c -> forall d, find_path (x_node x') d = find_path (mkNode [mkAd o m] app c pd) d).
+Proof. exact thm_number_learned. Qed.
+Print Assumptions C06_number_learned_station.
+
+Theorem C06_number_learned_cache_filed : forall o net c,
+  keys_on o c -> keys_on (Some net) (cache_rekey c o (Some net)).
+Proof. exact thm_number_learned_keys. Qed.
+Print Assumptions C06_number_learned_cache_filed.
+
+(* non-vacuity: a station told only its address, with a router recorded for network 7 and a packet parked for
+   network 9, hears "this is network 12": one adapter filed under 12, the path to 7 kept, the packet still parked,
+   and the global broadcast that follows goes out once *)
+Example C06_number_learned_example :
+  let x := mkX (mkNode [mkAd None (Some [5])] true [((None, 7), [9])]
+                        [(9, [mkNpdu (Some (DBcast 9)) None 255 None [16; 99]])]) 1 0 in
+  let r := run_xscript x [XE (EArrive 0 [9] LBcast (num_is 12 1)); XE (ESend AGB [16; 99; 1])] in
+  learnable None 1 12 /\ keys_on None [((None, 7), [9])] /\
+  adapters (x_node (fst r)) = [mkAd (Some 12) (Some [5])] /\
+  find_path (x_node (fst r)) 7 = Some (0%nat, [9]) /\
+  pending (x_node (fst r)) = [(9, [mkNpdu (Some (DBcast 9)) None 255 None [16; 99]])] /\
+  snd r = [[]; [Tx 0 LBcast (mkNpdu (Some DGlobal) None 255 None [16; 99; 1])]].
+Proof.
+  cbn zeta. split; [exact I|]. split.
+  - intros k mm [H|[]]. inversion H; reflexivity.
+  - vm_compute. repeat split.
+Qed.
+
+(* a station that has only LEARNED its number (flag 0) is renumbered by a later announcement, a configured one is not *)
+Example C06_renumbering_example :
+  adapters (x_node (fst (run_xscript (xinit (mkNode [mkAd None (Some [5])] true [] []))
+     [XE (EArrive 0 [9] LBcast (num_is 12 1)); XE (EArrive 0 [9] LBcast (num_is 13 1)); XE (EArrive 0 [9] LBcast (num_is 14 0))])))
+    = [mkAd (Some 13) (Some [5])] /\
+  adapters (x_node (fst (run_xscript (xinit (mkNode [mkAd (Some 4) (Some [5])] true [] []))
+     [XE (EArrive 0 [9] LBcast (num_is 12 1))]))) = [mkAd (Some 4) (Some [5])].
+Proof. vm_compute. split; reflexivity. Qed.
+
+(* the hypothesis `keys_on` of the last clause of C06_number_learned_station holds in EVERY reachable state: whatever
+   history of events (frames of any kind, sends, cache learning, announcements, renumberings, timer) a freshly bound
+   node has seen, its cache is filed under the numbers of its own ports (`filed`), so a station's cache is filed
+   under its adapter's number - hence a station never loses a path by learning or changing its number *)
+Theorem C06_cache_filed_under_own_ports : forall es x x' l,
+  filed (x_node x) -> run_xscript x es = (x', l) -> filed (x_node x').
+Proof. exact run_xscript_filed. Qed.
+Print Assumptions C06_cache_filed_under_own_ports.
+
+Theorem C06_station_cache_filed : forall n0 es x l a,
+  rcache n0 = [] -> run_xscript (xinit n0) es = (x, l) -> adapters (x_node x) = [a] ->
+  keys_on (a_net a) (rcache (x_node x)).
+Proof. exact thm_station_cache_filed. Qed.
+Print Assumptions C06_station_cache_filed.
+
+(* non-vacuity: a station told nothing learns a router from an I-Am-Router-To-Network, then its number, is renumbered,
+   learns from an SADR - the cache ends up filed under the last number and both paths are there *)
+Example C06_station_cache_filed_example :
+  let x := fst (run_xscript (xinit (mkNode [mkAd None None] true [] []))
+     [XE (EArrive 0 [9] LBcast (i_am [7])); XE (EArrive 0 [9] LBcast (num_is 12 0));
+      XE (EArrive 0 [9] LBcast (num_is 13 0));
+      XE (EArrive 0 [8] LBcast (mkNpdu None (Some (5, [1])) 0 None [16; 99]))]) in
+  adapters (x_node x) = [mkAd (Some 13) None] /\
+  rcache (x_node x) = [((Some 13, 7), [9]); ((Some 13, 5), [8])].
 Proof. vm_compute. split; reflexivity. Qed.
